@@ -204,7 +204,7 @@ def mutate(rng, text):
         j = (i + 1) % len(toks)
         toks[i], toks[j] = toks[j], toks[i]
     else:
-        toks.insert(i, rng.choice(["(", ")", "|", "*", ".", "+"]))
+        toks.insert(i, rng.choice(["(", ")", "|", "*", ".", "+", "()", "()", "(())"]))
     return " ".join(toks)
 
 
@@ -264,6 +264,23 @@ def run_case(c, stats):
                         core.report(PROP, "construct", "lenient-text-unusable:" + type(e).__name__, {"text": text},
                                     tags_text(text))
                     break
+            else:
+                # whatever the lenient reading is, all representations denote the same language
+                try:
+                    syms_l = sorted({t for t in re.findall(r"[A-Za-z0-9]+", text) if t != "epsilon"})[:2] or ["a"]
+                    enfa = r.to_epsilon_nfa()
+                    g_l = r.to_cfg()
+                    for wd in rn.all_words(syms_l, 2):
+                        a1, a2, a3 = bool(r.accepts(list(wd))), bool(enfa.accepts(list(wd))), bool(g_l.contains(list(wd)))
+                        if not (a1 == a2 == a3):
+                            with core.oracle_mode():
+                                core.report(PROP, "construct", "representations-of-lenient-text-disagree",
+                                            {"text": text, "word": list(wd), "accepts/enfa/cfg": [a1, a2, a3]},
+                                            tags_text(text))
+                            break
+                    core.LOG.count("C05.lenient_consistency")
+                except Exception:      # noqa  (already reported as unusable where it matters)
+                    pass
         return False
     syms = sorted(ref.alpha)[:3]
     for i, wd in enumerate(rn.all_words(syms + ["zz_foreign"], 3 if len(syms) <= 2 else 2)):
